@@ -30,6 +30,7 @@ func runC10(c *Ctx) {
 	r.Rule("C10.R4", "getRTPParametersByKind: an id allocated locally is the counter of a loop whose values are all within 1..14, is stored only when neither the section's map nor the negotiated map holds it; every header extension returned takes its ID from a map key; addTransceiverSDP's extmap values come from getRTPParametersByKind", 6)
 	r.Rule("C10.R5", "addCodec returns the list unchanged when an element has the new codec's payload type and appends only after the whole list was scanned; the four codec lists are written only through addCodec on the same list (RegisterFeedback replaces an element by itself with extended feedback; copy() clones)", 10)
 	r.Rule("C10.R6", "setCodecPreferencesFromRemoteDescription: every descending index scan over a codec working list reaches index 0 and removes exactly the element it stands on (a local codec, once matched, cannot be matched again, so no payload type is listed twice)", 4)
+	r.Rule("C10.R8", "findRTXPayloadType pairs a primary with an RTX only under equality: every return of an element's payload type is dominated by the true edge of an == between that element's fmtp line and the apt value built from the needle", 1)
 	r.Rule("C10.R7", "no in-place element removal (s = append(s[:i], s[i+1:]...)) on a codec list whose backing array may be shared with a list stored in a struct (MediaEngine codec lists, transceiver preferences): alias sets computed through locals, sub-slices, same-module callees and every call site", 2)
 	r.NotCovered = append(r.NotCovered,
 		"remote-chosen extmap ids (stored unvalidated; with extmap-allow-mixed ids above 14 are legal)",
@@ -45,6 +46,7 @@ func runC10(c *Ctx) {
 	c10R5(c)
 	c10R6(c)
 	c10R7(c)
+	c10R8(c) // c10e.go
 }
 
 // c10StdSummary: provenance summaries of pure library helpers.
